@@ -384,6 +384,18 @@ def run_model(case, libxc=False):
         fails.append({"key": "model;closed-shell;dres;" + ck,
                       "msg": "feature derivatives for two equal channels do not add up to the single-channel derivative: %.3e / %.3e" % (_rel(d2[0], d2[1]), _rel(d1[0], d2[0] + d2[1]))})
     if not libxc:
+        # the model-level low-density cutoff must act on the same (total) density in both paths: density column set to
+        # values on both sides of the cutoff and of half the cutoff
+        rc = 1e-3
+        Xc = X1.copy()
+        Xc[0, 0, :] = rc * np.resize(np.array([0.3, 0.49, 0.51, 0.75, 0.99, 1.01, 1.5, 3.0]), n)
+        rc1, dc1 = ml(Xc.copy(), rhocut=rc)
+        rc2, dc2 = ml(np.concatenate([Xc, Xc]), rhocut=rc)
+        if not (np.array_equal(rc1 == 0, rc2 == 0) and _rel(rc1, rc2) <= 1e-12 and _rel(dc1[0], dc2[0] + dc2[1]) <= 1e-12):
+            bad = np.where((rc1 == 0) != (rc2 == 0))[0]
+            fails.append({"key": "model;closed-shell;cutoff;" + ck,
+                          "msg": "with rhocut = %g the two-equal-channel call zeroes other points than the single-channel call (e.g. total density %s x rhocut: %s vs %s)" % (
+                              rc, (Xc[0, 0, bad[:3]] / rc).tolist(), rc1[bad[:3]].tolist(), rc2[bad[:3]].tolist())})
         rab, dab = call2(np.concatenate([X1, Xb]))
         rba, dba = call2(np.concatenate([Xb, X1]))
         if _rel(rab, rba) > 1e-12 or _rel(dab[0], dba[1]) > 1e-12 or _rel(dab[1], dba[0]) > 1e-12:
